@@ -234,6 +234,20 @@ func verifC12_CacheFilters() {
 			}
 		}
 		same := got.code == want.code && (want.code != 0 || (got.path != nil && vEntryOf[got.path] == vEntryOf[want.path]))
+		if got.code == 0 && got.path != nil {
+			// whatever the cache did: a routed client is allowed by the server filter and by the
+			// filters of the rule and path it is routed to (not masked by the known finding)
+			e := vEntryOf[got.path]
+			var own *Rule
+			for _, r := range spec.Rules {
+				for _, p := range r.Paths {
+					if p == e {
+						own = r
+					}
+				}
+			}
+			verifAssert(own != nil && allow(spec.IPFilter) && allow(own.IPFilter) && allow(e.IPFilter), "routed-with-cache-implies-allowed-by-own-route-filters")
+		}
 		if all {
 			verifAssert(same, "same-outcome-with-cache-for-clients-allowed-by-every-filter")
 		}
